@@ -178,6 +178,8 @@ func expectedLen(cs Case) (int, bool) {
 	switch cs.Family {
 	case "loop-exits":
 		return loopExits[cs.M].want, true
+	case "closure-into-field":
+		return cs.N*(cs.N+1)/2 + 100, true
 	case "move-run":
 		a := [8]int{0, 1, 2, 3, 4, 5, 6, 7}
 		if cs.M == 1 {
@@ -195,8 +197,10 @@ func expectedLen(cs Case) (int, bool) {
 			return cs.N, true
 		case 1:
 			return 0, true
-		case 3, 5:
+		case 3, 5, 7:
 			return cs.N + 3, true
+		case 6:
+			return cs.N + 2, true
 		}
 	}
 	return 0, false
@@ -302,14 +306,19 @@ func adversarial(quick bool) []Case {
 		add("constants-arith", n, 0)
 	}
 	for _, n := range []int{0, 1, 49, 50, 51, 99, 100, 101, 150, 500, 2550, 25549, 25550, 25551, 25600, 26000} {
-		for m := 0; m < 6; m++ {
+		for m := 0; m < 8; m++ {
 			add("constructor", n, m)
+		}
+	}
+	for _, n := range []int{0, 1, 2, 3, 4, 6, 10, 40} {
+		for m := 0; m < 10; m++ {
+			add("closure-into-field", n, m)
 		}
 	}
 	if !quick {
 		add("constants-num", 262143, 0)
 		add("constants-num", 262145, 0)
-		for m := 0; m < 6; m++ {
+		for m := 0; m < 8; m++ {
 			add("constructor", 60000, m)
 		}
 		add("longjump", 140000, 0)
@@ -419,7 +428,7 @@ func buildAdv(fam string, n, m int) string {
 		sb.WriteString("local a, b = 1, 2\nlocal function f() return 1, 2, 3 end\nlocal t = {")
 		for i := 0; i < n; i++ {
 			switch m {
-			case 0, 3, 4, 5:
+			case 0, 3, 4, 5, 6, 7:
 				fmt.Fprintf(&sb, "%d,", i)
 			case 1:
 				fmt.Fprintf(&sb, "k%d=%d,", i, i)
@@ -440,6 +449,14 @@ func buildAdv(fam string, n, m int) string {
 			sb.WriteString("x = f()")
 		case 5:
 			sb.WriteString("a, b, 3")
+		case 6:
+			sb.WriteString("a, b") // the last batch ends in a run of moves between locals
+		case 7:
+			sb.WriteString("b, a, b")
+		}
+		if m == 6 || m == 7 {
+			sb.WriteString("}\nif t[#t] ~= 2 or t[#t - 1] ~= 1 then return -1 end\nreturn #t, t[1]")
+			break
 		}
 		sb.WriteString("}\nreturn #t, t[1]")
 	case "longjump":
@@ -624,6 +641,42 @@ func buildAdv(fam string, n, m int) string {
 		sb.WriteString("return a0 + a1 * 2 + a2 * 3 + a3 * 5 + a4 * 7 + a5 * 11 + a6 * 13 + a7 * 17")
 	case "loop-exits":
 		sb.WriteString(loopExits[m].src)
+	case "closure-into-field":
+		// a function expression with n outer upvalues and one local of the (small) enclosing function, stored
+		// straight into a table field, a constructor field, a global or an upvalue; the chunk calls it
+		for i := 0; i < n; i++ {
+			fmt.Fprintf(&sb, "local u%d = %d\n", i, i+1)
+		}
+		sum := "p"
+		for i := 0; i < n; i++ {
+			if m == 9 {
+				sum = sum + fmt.Sprintf(" + u%d", i) // the local first
+			} else {
+				sum = fmt.Sprintf("u%d + ", i) + sum // the local last
+			}
+		}
+		fn := "function() return " + sum + " end"
+		sb.WriteString("local T = {a = {}}\nlocal H\n")
+		switch m {
+		case 0, 9:
+			sb.WriteString("local function factory(p) T.get = " + fn + " end\nfactory(100)\nreturn T.get()")
+		case 1:
+			sb.WriteString("local function factory(p) T['get it'] = " + fn + " end\nfactory(100)\nreturn T['get it']()")
+		case 2:
+			sb.WriteString("local function factory(p) T[p] = " + fn + " end\nfactory(100)\nreturn T[100]()")
+		case 3:
+			sb.WriteString("local function factory(p) local t = {get = " + fn + "} return t end\nreturn factory(100).get()")
+		case 4:
+			sb.WriteString("local function factory(p) return {get = " + fn + ", [p] = p} end\nreturn factory(100).get()")
+		case 5:
+			sb.WriteString("local function factory(p) return {" + fn + "} end\nreturn factory(100)[1]()")
+		case 6:
+			sb.WriteString("local function factory(p) T.a.b = " + fn + " end\nfactory(100)\nreturn T.a.b()")
+		case 7:
+			sb.WriteString("local function factory(p) GLOBALFN = " + fn + " end\nfactory(100)\nreturn GLOBALFN()")
+		default:
+			sb.WriteString("local function factory(p) H = " + fn + " T.h = H end\nfactory(100)\nreturn T.h() + H() - 100 - " + fmt.Sprint(n*(n+1)/2))
+		}
 	case "upvalues-passthrough":
 		// a middle function gathers 2n upvalues only through closures nested inside it
 		for i := 0; i < n; i++ {
